@@ -58,7 +58,10 @@ def cases(tier, seed):
         ("dup-list", "dup"), ("dup-array", "dup"), ("frac-list", "frac"), ("frac-array", "frac"), ("str", "type"),
         ("tuple", "type"), ("set", "type"), ("none", "type"), ("series", "type"), ("array2d", "type"), ("nan", "frac"),
         ("strlist", "type"), ("float-scalar", "type"), ("dict", "type"), ("nonbool-relative", "type"),
-        ("dup-index", "dup"), ("empty-check_fh", "empty"), ("abs-enforce-relative", "relative"),
+        ("dup-index", "dup"), ("dup-index-sorted", "dup"), ("empty-check_fh", "empty"), ("abs-enforce-relative", "relative"),
+        # time-like values are no steps: a relative horizon (the default, and what check_fh makes of raw input) refuses them
+        ("period-relative", "type"), ("datetime-relative", "type"), ("timedelta", "type"), ("categorical", "type"), ("multiindex", "type"),
+        ("time-scalar", "type"),
     ]
     reps = 3 if tier == "quick" else 100
     for r in range(reps):
@@ -201,6 +204,8 @@ def _run_reject(case, ctx, FH, check_fh):
         "dup-list": lambda: FH(b + [b[0]], is_relative=rel),
         "dup-array": lambda: FH(np.array(b + [b[-1]]), is_relative=rel),
         "dup-index": lambda: FH(pd.Index(b + [b[0]]), is_relative=rel),
+        # an index that is already in increasing order, with a repeated step (the last, the first or a middle one)
+        "dup-index-sorted": lambda: FH(pd.Index(sorted(b + [b[case["salt"] % len(b)]]), dtype="int64"), is_relative=rel),
         "frac-list": lambda: FH([b[0] + 0.5] + [float(x) for x in b[1:]], is_relative=rel),
         "frac-array": lambda: FH(np.array(b, dtype=float) + 0.25, is_relative=rel),
         "nan": lambda: FH([float("nan")] + [float(x) for x in b], is_relative=rel),
@@ -216,6 +221,14 @@ def _run_reject(case, ctx, FH, check_fh):
         "nonbool-relative": lambda: FH(b, is_relative=[1, "yes", None, 0][case["salt"] % 4]),
         "empty-check_fh": lambda: check_fh([np.array([], dtype=int), [], pd.Index([], dtype="int64")][case["salt"] % 3]),
         "abs-enforce-relative": lambda: check_fh(FH(b, is_relative=False), enforce_relative=True),
+        "period-relative": lambda: [lambda v: FH(v, is_relative=True), lambda v: FH(v), check_fh][case["salt"] % 3](
+            pd.period_range("2000-01", periods=len(b), freq=["M", "D", "Q"][case["salt"] % 3])),
+        "datetime-relative": lambda: [lambda v: FH(v, is_relative=True), lambda v: FH(v), check_fh][case["salt"] % 3](
+            pd.date_range("2000-01-01", periods=len(b), freq=["D", "MS", "H"][case["salt"] % 3])),
+        "timedelta": lambda: FH(pd.timedelta_range("1D", periods=len(b)), is_relative=rel),
+        "categorical": lambda: FH(pd.CategoricalIndex(b), is_relative=rel),
+        "multiindex": lambda: FH(pd.MultiIndex.from_tuples([(x, x + 1) for x in b]), is_relative=rel),
+        "time-scalar": lambda: FH([pd.Period("2000-01", freq="M"), pd.Timestamp("2000-01-01"), np.datetime64("2000-01-01")][case["salt"] % 3], is_relative=rel),
     }
     try:
         out = builders[name]()
